@@ -92,6 +92,11 @@ separator-free and of kind `K`; `RefP K d s`: unique file names, every file is n
 the bundle in the file named after a well-formed key is what `s` stores, and `s` stores only well-formed keys. -/
 theorem C14_pickle_simulation (K : Kind) : Refines pklImpl (fun op => wfOp K op = true) (RefP K) := pkl_refines K
 
+/-- the relations are inhabited (empty persisters represent the empty store) and the guard holds of ordinary operations -/
+example : RefM memImpl.init Spec.empty ∧ RefP .str pklImpl.init Spec.empty ∧
+    wfOp .str (.save pA t1) = true ∧ wfOp .str (.delp pB) = true ∧ wfOp .str (.save ⟨.str, "a.b"⟩ none) = false :=
+  ⟨mem_refines.init, (pkl_refines .str).init, by decide, by decide, by decide⟩
+
 /-- **C14, in-memory persister, every history**: started empty, after any history the observations conform to the
 specification run (`Conforms`: result by result) and the final states are related. -/
 theorem C14_inmem_refines (c : Cur) (ops : List Op) :
